@@ -321,6 +321,8 @@ func tableLayout(context *layoutContext, table_ bo.TableBoxITF, bottomSpace pr.F
 						}
 					}
 					row.Height = pr.Max(rowBottomY-row.PositionY, 0)
+					// a cell spanning from a previous row may end above this (then empty) row
+					rowBottomY = row.PositionY + row.Height.V()
 				} else {
 					var m pr.Float
 					for _, rowCell := range endingCells {
